@@ -83,17 +83,27 @@ def run_pipeline(prop, fam, tier, seed, work, jh, specdir, stats):
     stats["v_transitions"] = gen
     return cases, trace, verdicts
 
-def confirm(prop, fam, work, jh, specdir, evs, failing):
+def confirm(prop, fam, work, jh, specdir, evs, failing, cases_path=None):
     """Every disagreement is re-executed alone in a fresh process before anything is reported."""
     if not failing:
         return {}
     cdir = os.path.join(work, "confirm")
     os.makedirs(cdir, exist_ok=True)
     cases = os.path.join(cdir, "cases.ndjson")
+    orig = {}
+    want = set(failing)
+    if cases_path:
+        with open(cases_path) as f:
+            for line in f:
+                if line.strip():
+                    c = json.loads(line)
+                    if c["id"] in want:
+                        orig[c["id"]] = c
     with open(cases, "w") as f:
         for i in failing:
             e = evs[i]
-            c = {"id": i, "fam": e.get("fam"), "src": cps_to_str(e["src"]), "inp": e["inp"], "binds": e.get("binds", [])}
+            c = orig.get(i) or {"id": i, "fam": e.get("fam"), "src": cps_to_str(e["src"]), "inp": e["inp"], "binds": e.get("binds", [])}
+            c.pop("exp", None)
             f.write(json.dumps(c) + "\n")
     trace = os.path.join(cdir, "trace.ndjson")
     replay(jh, cases, trace, timeout_s=fam.get("case_timeout", 3) * 3, jobs=8)
@@ -134,9 +144,12 @@ def main(argv):
         evs = load_trace(trace)
         mine = {}
         inconclusive = skipped = 0
+        reasons = {}
         for i, v in verdicts.items():
             if v.startswith("inc"):
                 inconclusive += 1
+                r = v.split(";")[0][4:]
+                reasons[r] = reasons.get(r, 0) + 1
             elif v.startswith("skip"):
                 skipped += 1
             if prop in concerns(evs[i], v):
@@ -150,7 +163,7 @@ def main(argv):
         violations = []
         known_hits = {}
         if reps:
-            cverd, cevs = confirm(prop, fam, work, jh, specdir, evs, reps)
+            cverd, cevs = confirm(prop, fam, work, jh, specdir, evs, reps, cases)
             for i in reps:
                 v2 = cverd.get(i)
                 if v2 is None or prop not in concerns(cevs[i], v2):
@@ -174,12 +187,17 @@ def main(argv):
                     violations.append((i, v2, path))
         for kid, (k, cnt) in sorted(known_hits.items()):
             print("KNOWN-FINDING: property=%s %s (%d cases in this run)" % (prop, k["what"], cnt))
-        for (i, v, path) in violations:
+        for n_v, (i, v, path) in enumerate(violations):
+            if n_v == 25:
+                log("   ... %d more distinct violation signatures (replay files written)" % (len(violations) - 25))
+            if n_v >= 25:
+                continue
             print("VIOLATION property=%s replay=%s" % (prop, os.path.relpath(path, VERIF)))
             log("   case: %s | input %s | observed %s | verdict %s" % (cps_to_str(evs[i]["src"]), json.dumps(plain(evs[i]["inp"]))[:200], json.dumps(plain_out(evs[i]["out"]))[:200], v))
         # evidence
         total = len(evs)
         nontrivial = set()
+        parse_div = sum(1 for e in evs.values() if e.get("parse_same") is False)
         samples = []
         rnd = random.Random(seed)
         ids = sorted(evs)
@@ -206,7 +224,7 @@ def main(argv):
             "tlc_enumeration": stats["g_runs"],
             "generators": stats["v_runs"],
             "g_cases_replayed": stats["g_cases"], "v_cases_recorded": stats["v_cases"], "directed_cases": stats["fixed_cases"],
-            "spec_abstained": inconclusive, "skipped_compile_errors": skipped,
+            "spec_abstained": inconclusive, "abstained_reasons": reasons, "enumerated_trees_parsed_differently": parse_div, "skipped_compile_errors": skipped,
             "lines_not_accepted_for_other_properties": len(verdicts) - inconclusive - skipped - len(mine),
             "known_findings_reproduced": [k["id"] for k, _ in known_hits.values()],
             "replay_wall_s": stats.get("replay_s"), "validate_wall_s": stats.get("validate_s"),
